@@ -3378,3 +3378,138 @@ func c12R9(c *Ctx, r *Report) {
 	}
 	r.Floor(rule, n, 2, "by-name lookups of a NamedType")
 }
+
+// ---- C03.R18: an undefined type name is an error ------------------------------------------------------------------
+
+func init() {
+	lateInits = append(lateInits, func() {
+		props["C03"].Quick = append(props["C03"].Quick, c03R18)
+		props["C03"].Explanation += " (R18) TypeFromTypeNodeWithContext turns an identifier into a built-in type only under a test of the name beyond `!= unknown` (FromTypeName makes a type of any name), and, with a context, reports a diagnostic before it gives up on a type name."
+	})
+}
+
+func c03R18(c *Ctx, r *Report) {
+	const rule = "C03.R18"
+	r.Describe(rule, "typechecker.TypeFromTypeNodeWithContext, case *ast.IdentifierExpr: the return of the FromTypeName result is guarded by a second test besides Equals(TypeUnknown); every `return types.TypeUnknown` of the clause is reached through a call that adds a diagnostic or across the false edge of the `ctx != nil` test")
+	fn := c.LookupFn(pkgTC, "TypeFromTypeNodeWithContext")
+	ftn := c.LookupFn("internal/types", "FromTypeName")
+	bagAdd := c.LookupFn("internal/diagnostics", "(*DiagnosticBag).Add")
+	if !r.Anchor(rule, fn != nil && ftn != nil && bagAdd != nil, "typechecker.TypeFromTypeNodeWithContext / types.FromTypeName / DiagnosticBag.Add") {
+		return
+	}
+	info := fn.Info()
+	var cc *ast.CaseClause
+	ast.Inspect(fn.Decl.Body, func(x ast.Node) bool {
+		if cl, ok := x.(*ast.CaseClause); ok && cc == nil {
+			for _, t := range caseTypes(info, cl) {
+				if nt := namedOf(t); nt != nil && nt.Obj().Name() == "IdentifierExpr" {
+					cc = cl
+				}
+			}
+		}
+		return true
+	})
+	if !r.Anchor(rule, cc != nil, "TypeFromTypeNodeWithContext: case *ast.IdentifierExpr") {
+		return
+	}
+	// (b) the primitive result
+	var prim types.Object
+	for _, st := range cc.Body {
+		if as, ok := st.(*ast.AssignStmt); ok && len(as.Lhs) == 1 && len(as.Rhs) == 1 {
+			if cl, ok := as.Rhs[0].(*ast.CallExpr); ok && isCallTo(info, cl, ftn.Obj) {
+				prim = objOf(info, as.Lhs[0])
+			}
+		}
+	}
+	if r.Anchor(rule, prim != nil, "IdentifierExpr clause: x := types.FromTypeName(…)") {
+		okGuard, seen := false, false
+		for _, st := range cc.Body {
+			ifs, ok := st.(*ast.IfStmt)
+			if !ok || len(ifs.Body.List) == 0 {
+				continue
+			}
+			ret, ok := ifs.Body.List[len(ifs.Body.List)-1].(*ast.ReturnStmt)
+			if !ok || len(ret.Results) != 1 || objOf(info, ret.Results[0]) != prim {
+				continue
+			}
+			seen = true
+			for _, cj := range conjuncts(ifs.Cond) {
+				s := exprStr(cj)
+				if !strings.Contains(s, "Equals(") {
+					okGuard = true
+				}
+			}
+		}
+		r.Check(seen && okGuard, rule, fn.Name(), "a built-in type name is validated", c.pos(cc.Pos()),
+			"any identifier becomes a primitive type of that name: `type P struct { .X: Bar };` with Bar undeclared compiles to an executable, `fn id(a: Foo) -> Foo` is stopped only by the back end (\"unsupported alloca type\")")
+	}
+	// (a) giving up is reported
+	callsAdd := func(n ast.Node) bool {
+		hit := false
+		inspectShallow(n, func(x ast.Node) bool {
+			cl, ok := x.(*ast.CallExpr)
+			if !ok {
+				return true
+			}
+			f := callee(info, cl)
+			if f == nil {
+				return true
+			}
+			if f == bagAdd.Obj {
+				hit = true
+			} else if hf := c.FnOf(f); hf != nil && hf.Decl != nil && hf.Decl.Body != nil && nodeCalls(hf.Info(), hf.Decl.Body, bagAdd.Obj) != nil && f.Pkg() == fn.Obj.Pkg() && f != fn.Obj {
+				hit = true
+			}
+			return true
+		})
+		return hit
+	}
+	nT := 0
+	blk := &ast.BlockStmt{List: cc.Body, Lbrace: cc.Colon, Rbrace: cc.End()}
+	// the reporting statement sits in `if ctx != nil && mod != nil { report }`: its false edge is the no-context use
+	ctxGuard := map[ast.Expr]bool{}
+	ast.Inspect(blk, func(x ast.Node) bool {
+		if ifs, ok := x.(*ast.IfStmt); ok && strings.Contains(exprStr(ifs.Cond), "ctx != nil") {
+			for _, st := range ifs.Body.List {
+				if callsAdd(st) {
+					ctxGuard[ifs.Cond] = true
+				}
+			}
+		}
+		return true
+	})
+	hits := mustFlow(c.CFGOfBody(blk), FlowSpec{
+		Gate: callsAdd,
+		EdgeGate: func(b *cfg.Block, succ int) bool {
+			cond := condOf(b)
+			if cond == nil || succ != 1 {
+				return false
+			}
+			for g := range ctxGuard {
+				if g == cond {
+					return true
+				}
+				for _, cj := range conjuncts(g) {
+					if cj == cond {
+						return true
+					}
+				}
+			}
+			return false
+		},
+		Target: func(n ast.Node) bool {
+			ret, ok := n.(*ast.ReturnStmt)
+			if ok && len(ret.Results) == 1 && strings.HasSuffix(exprStr(ret.Results[0]), "TypeUnknown") {
+				nT++
+				return true
+			}
+			return false
+		},
+	})
+	where := c.pos(cc.Pos())
+	if len(hits) > 0 && hits[0].Pos.IsValid() {
+		where = c.pos(hits[0].Pos)
+	}
+	r.Check(nT > 0 && len(hits) == 0, rule, fn.Name(), "an unknown type name is reported", where,
+		"the conversion gives up on a type name without a diagnostic: the declaration is accepted with an unknown type, which every later check skips")
+}
